@@ -252,6 +252,15 @@ func (be *buildEnv) FetchSourcePackage(ctx context.Context, sourceType string, u
 		extras := p.Extras
 		copied := false
 		for k, n := range extras {
+			if strings.Contains(n.Target, "{TMPSELF}") {
+				// the absolute name of the directory the package is being fetched into
+				abs, _ := filepath.Abs(targetDir)
+				if !copied {
+					extras = append([]gen.NodeSpec{}, p.Extras...)
+					copied = true
+				}
+				extras[k].Target = strings.ReplaceAll(n.Target, "{TMPSELF}", abs)
+			}
 			if strings.Contains(n.Target, "{SIBLING}") {
 				// name of a package directory that is already installed in the bundle
 				sib := "no-sibling-installed-yet"
